@@ -219,3 +219,40 @@ def r6(rr, repo):
         elif st:
             rr.ob('copy(): a read-only or absent image is shared, not duplicated', False, mod, st[0].node, witness=p.pc_text(), key='copy-nodup')
     rr.floor('copy() paths with a writable image', k, 1, mod, fn)
+
+
+@rule('C10.R7', 'a pickle round trip carries the frame state field by field: __reduce__ hands (image, data, jpg, shapef, writeable) read from the private fields to unreduce, which stores each back unchanged (no re-derivation of pixels from the jpg or vice versa)')
+def r7(rr, repo):
+    mod, red = repo.find(f'{FR}::Frame.__reduce__')
+    _, unr = repo.find(f'{FR}::Frame.unreduce')
+    cls = repo.find(f'{FR}::Frame')[1]
+    rets = [n for n in walk_scope(red) if isinstance(n, ast.Return)]
+    if not rets:
+        rr.unresolved('__reduce__ has no return', mod, red, key='reduce-shape')
+        return
+    ev = Evaluator(repo, mod, cls_ctx=cls)
+    ps = ev.run(red.body)
+    params = q.func_params(unr)
+    want = {'image': 'self._Frame__image', 'data': 'self._Frame__data', 'jpg': 'self._Frame__jpg', 'shapef': 'self._Frame__shapef'}
+    for p in ps:
+        o = p.outcome
+        if o is None or o[0] != 'return' or not isinstance(o[1], ast.Tuple) or len(o[1].elts) != 2:
+            rr.unresolved('__reduce__ path that does not return (callable, args-tuple)', mod, red, witness=p.outcome_text()[:100], key='reduce-shape')
+            continue
+        rr.ob('__reduce__ names Frame.unreduce as the reconstructor', U(o[1].elts[0]) in ('Frame.unreduce', 'self.unreduce'), mod, rets[0], key='reduce-callable')
+        sent = o[1].elts[1].elts if isinstance(o[1].elts[1], ast.Tuple) else []
+        rr.ob('__reduce__ passes as many values as unreduce takes', len(sent) == len(params), mod, rets[0], witness=f'{len(sent)} vs {params}', key='reduce-arity')
+        for name, term in zip(params, sent):
+            if name in want:
+                rr.ob(f'the pickled `{name}` is the private field itself, on every path (not dropped, not re-derived)', U(term) == want[name], mod, rets[0], witness=f'{p.pc_text() or "unconditional"}: {name} = {U(term)[:80]}', key=f'reduce-field|{name}|{U(term)[:40]}')
+    ev2 = Evaluator(repo, mod, cls_ctx=cls)
+    ps2 = ev2.run(unr.body)
+    n = 0
+    for p in ps2:
+        for name in want:
+            st = [e for e in p.events if e.kind == 'store' and e.term.endswith(f'._Frame__{name}')]
+            if name in params:
+                n += 1
+                rr.ob(f'unreduce stores the pickled `{name}` unchanged, once', len(st) == 1 and st[0].args[0] == name, mod, st[0].node if st else unr,
+                      witness=str([s.args[0][:60] for s in st]), key=f'unreduce-field|{name}|{[s.args[0][:30] for s in st]}')
+    rr.floor('field stores examined in unreduce', n, 4, mod, unr)
